@@ -295,6 +295,226 @@ def run(ctx):
                           % ([s_[0] for s_ in script if s_[0] in ('compress', 'encrypt')], len(sent_ids), seen[:12], sent_ids[:12], errs[:1]),
                           {'script': [s_[0] for s_ in script], 'threshold': thr, 'encrypted': enc_on},
                           key={'kind': 'session', 'script': [s_[0] for s_ in script], 'thr': thr, 'ids': sent_ids})
+    dispatch_tie(ctx)
+
+
+def dispatch_tie(ctx):
+    """Tie of Model/C01Dispatch.lean (driver `dispatch.readall`, `conn.write`, `opts.run`) to the real code
+    (ported from harness/xcheck/c01dispatch_xcheck.py): read_packet with random id tables of typed packet
+    classes (values and UNREAD rest of each frame's PacketBuffer observed through a recording subclass),
+    Connection._write_packet under (compression_enabled, compression_threshold), and the code that assigns
+    the two options (_connect, the two set-compression reactions).  Module globals that are replaced
+    (packets.PacketBuffer, connection.select, connection.socket) are restored in finally."""
+    import struct
+    import minecraft.networking.connection as C
+    import minecraft.networking.packets as P
+    from minecraft.networking.packets import Packet, clientbound
+    from minecraft.networking.types import basic as B
+    rng = ctx.rng
+    TY = {'varint': B.VarInt, 'string': B.String, 'bool': B.Boolean, 'i16': B.Short, 'bytesv': B.VarIntPrefixedByteArray,
+          'trailing': B.TrailingByteArray, 'i64': B.Long, 'u8': B.UnsignedByte}
+    varint = refcodec.varint
+
+    def rndval(t):
+        if t == 'varint':
+            return rng.choice([0, 1, 127, 128, 300, 2 ** 31 - 1])
+        if t == 'string':
+            return rng.choice(['', 'hi', u'h\xe9llo', u'€'])
+        if t == 'bool':
+            return rng.random() < .5
+        if t == 'i16':
+            return rng.randrange(-2 ** 15, 2 ** 15)
+        if t == 'i64':
+            return rng.randrange(-2 ** 63, 2 ** 63)
+        if t == 'u8':
+            return rng.randrange(256)
+        return bytes(rng.randrange(256) for _ in range(rng.randrange(0, 5)))
+
+    def showval(v):
+        if isinstance(v, bool):
+            return 'T' if v else 'F'
+        if isinstance(v, int):
+            return 'i%d' % v
+        if isinstance(v, str):
+            return 's' + v.encode('utf-8').hex()
+        return 'x' + bytes(v).hex()
+
+    def ename2(e):
+        if isinstance(e, EOFError):
+            return 'eof'
+        if isinstance(e, AssertionError):
+            return 'assertion'
+        if isinstance(e, zlib.error):
+            return 'zlib'
+        if isinstance(e, UnicodeDecodeError):
+            return 'decode'
+        if isinstance(e, ValueError) and 'too long' in str(e):
+            return 'toolong'
+        if isinstance(e, struct.error):
+            return 'struct'
+        if isinstance(e, ValueError):
+            return 'value'
+        if isinstance(e, TypeError):
+            return 'type'
+        return 'other:' + type(e).__name__
+
+    made = []
+    orig = P.PacketBuffer
+
+    class Spy(orig):
+        def __init__(self, *a, **k):
+            orig.__init__(self, *a, **k)
+            made.append(self)
+    context = C.ConnectionContext(protocol_version=757)
+    reqs, want = [], []
+    saved = (P.PacketBuffer, C.select)
+    P.PacketBuffer = Spy
+    C.select = types.SimpleNamespace(select=lambda r, w, x, t=None: (list(r), [], []))
+    try:
+        for case in range(ctx.scale(250, 4000)):
+            ids = rng.sample([0, 1, 2, 3, 0x21, 0x7f, 0x80, 300, 2 ** 21], rng.randrange(0, 5))
+            table = {}
+            for i in ids:
+                tys = [rng.choice(['varint', 'string', 'bool', 'i16', 'bytesv', 'i64', 'u8']) for _ in range(rng.randrange(0, 4))]
+                if rng.random() < .3:
+                    tys.append('trailing')
+                table[i] = tys
+            classes = {i: type('K%d' % i, (Packet,), {'id': i, 'definition': [{'f%d' % k: TY[t]} for k, t in enumerate(tys)]})
+                       for i, tys in table.items()}
+
+            class Reactor(C.PacketReactor):
+                get_clientbound_packets = staticmethod(lambda context_, cs=classes: set(cs.values()))
+            enabled = rng.random() < .6
+            thr = rng.choice([-1, 0, 1, 4, 64, -3])
+            zmap, wire = {}, b''
+            for _ in range(rng.randrange(0, 6)):
+                kind = rng.choice(['known', 'known', 'unknown', 'unknown', 'bad'])
+                if kind != 'unknown' and not table:
+                    kind = 'unknown'
+                if kind == 'unknown':
+                    pid = rng.choice([4, 5, 0x55, 129, 16384, 2 ** 28])
+                    fields = bytes(rng.randrange(256) for _ in range(rng.randrange(0, 9)))
+                else:
+                    pid = rng.choice(sorted(table))
+                    buf = orig()
+                    for t in table[pid]:
+                        TY[t].send(rndval(t), buf)
+                    fields = buf.get_writable()
+                    if kind == 'bad':
+                        fields = fields[:rng.randrange(0, len(fields) + 1)] if rng.random() < .6 else fields + b'\xff\xfe'
+                p = Packet()
+                p.id, p.definition, p.payload, p.context = pid, [{'payload': B.TrailingByteArray}], fields, context
+                s = Sock()
+                if enabled:
+                    p.write(s, thr)
+                else:
+                    p.write(s)
+                wire += b''.join(s.sends)
+                payload = varint(pid) + fields
+                if enabled and thr != -1 and len(payload) > thr:
+                    zmap[zlib.compress(payload)] = payload
+            if rng.random() < .15 and wire:
+                wire = wire[:-1]
+            segs, i = [], 0
+            while i < len(wire):
+                n = rng.choice([1, 1, 2, 3, 5, 8, 40])
+                segs.append(wire[i:i + n])
+                i += n
+            if rng.random() < .3:
+                segs = [wire]
+            conn = types.SimpleNamespace(context=context, options=C._ConnectionOptions(compression_enabled=enabled, compression_threshold=thr))
+            reactor = Reactor(conn)
+            stream = SegStream(segs)
+            items, end = [], None
+            for _ in range(12):
+                del made[:]
+                try:
+                    p = reactor.read_packet(stream, timeout=0)
+                except Exception as e:
+                    end = ename2(e)
+                    break
+                unread = made[0].read()
+                if type(p) is Packet:
+                    items.append('b:%d:%s' % (p.id, hx(unread)))
+                else:
+                    vals = [getattr(p, n) for f in type(p).definition for n in f]
+                    items.append('k:%d:%s:%s' % (p.id, ';'.join(showval(v) for v in vals) or '-', hx(unread)))
+            zm = ','.join('%s:%s' % (hx(c), hx(pl)) for c, pl in zmap.items()) or '-'
+            tab = '|'.join('%d=%s' % (i, ';'.join(t) or '-') for i, t in sorted(table.items())) or '-'
+            reqs.append('dispatch.readall %d zmap=%s tab=%s %s' % (enabled, zm, tab, ' '.join(hx(s) for s in segs if s)))
+            want.append('ok %send=%s reads=%d eofreads=%d' % (''.join(i + ' ' for i in items), end, stream.reads, stream.empties))
+    finally:
+        P.PacketBuffer, C.select = saved
+    n_read = len(reqs)
+    # ---- conn.write vs the real _write_packet
+    for case in range(ctx.scale(80, 1200)):
+        enabled = rng.random() < .5
+        thr = rng.choice([-1, 0, 1, 3, 64, -3, 1000])
+        pid = rng.choice([0, 5, 0x7f, 300])
+        fields = bytes(rng.randrange(256) for _ in range(rng.randrange(0, 70)))
+        conn = C.Connection('localhost', 25565)
+        conn.socket = Sock()
+        conn.options.compression_enabled, conn.options.compression_threshold = enabled, thr
+        p = Packet()
+        p.id, p.definition, p.payload, p.context = pid, [{'payload': B.TrailingByteArray}], fields, conn.context
+        conn._write_packet(p)
+        payload = varint(pid) + fields
+        reqs.append('conn.write %d %d zmap=%s:%s %s' % (enabled, thr, hx(zlib.compress(payload)), hx(payload), hx(payload)))
+        want.append('ok ' + ' '.join(hx(s) for s in conn.socket.sends))
+    n_write = len(reqs) - n_read
+
+    # ---- opts.run vs the real handlers
+    class FS:
+        def __init__(self, *a):
+            pass
+
+        def connect(self, a):
+            pass
+
+        def makefile(self, *a):
+            return None
+    fake = types.SimpleNamespace(AF_INET=2, AF_INET6=10, SOCK_STREAM=1, socket=FS,
+                                 getaddrinfo=lambda *a: [(2, 1, 6, '', ('127.0.0.1', 25565))])
+    for case in range(ctx.scale(80, 1200)):
+        conn = C.Connection('localhost', 25565, initial_version=47)
+        conn.context.protocol_version = 47
+        e0, t0 = rng.random() < .5, rng.choice([-1, 0, 256, 7])
+        conn.options.compression_enabled, conn.options.compression_threshold = e0, t0
+        evs = []
+        for _ in range(rng.randrange(0, 5)):
+            r = rng.random()
+            if r < .3:
+                sv = C.socket
+                C.socket = fake
+                try:
+                    conn._connect()
+                finally:
+                    C.socket = sv
+                evs.append('connect')
+            else:
+                t = rng.choice([-1, 0, 256, 5, -9])
+                if r < .65:
+                    C.LoginReactor(conn).react(clientbound.login.SetCompressionPacket(threshold=t))
+                else:
+                    C.PlayingReactor(conn).react(clientbound.play.SetCompressionPacket(threshold=t))
+                evs.append('setc/%d' % t)
+        o = conn.options
+        seen = {}      # what the writer would pass / the reader would test, observed on the real code
+        pk = types.SimpleNamespace(write=lambda sock, thr='none': seen.setdefault('w', thr))
+        conn.socket = Sock()
+        conn._write_packet(pk)
+        reqs.append('opts.run %d %d %s' % (e0, t0, ' '.join(evs)))
+        want.append('ok %d %d writer=%s reader=%d' % (o.compression_enabled, o.compression_threshold, seen['w'], bool(o.compression_enabled)))
+    for line, m, w in zip(reqs, ctx.driver.ask(reqs), want):
+        op = line.split()[0]
+        ctx.case(('c01dispatch', line), sample={'op': op, 'impl': w[:160]} if op != 'dispatch.readall' or len(w) > 40 else None)
+        ctx.count('dispatch_tie.' + op)
+        if op == 'dispatch.readall':
+            ctx.count('dispatch_tie.end.' + w.split('end=')[1].split()[0])
+        if m != w:
+            ctx.disagree('%s vs the real code' % op, line[:600], m[:400], w[:400])
+    ctx.extra['c01dispatch_pairs'] = ctx.extra.get('c01dispatch_pairs', 0) + len(reqs)
+    ctx.extra['c01dispatch_pairs_by_op'] = {'dispatch.readall': n_read, 'conn.write': n_write, 'opts.run': len(reqs) - n_read - n_write}
 
 
 def pkts_by_pos(pkts, k):
